@@ -55,6 +55,8 @@ OpsDrvP == {"set", "mul", "get", "drv"}
 OpsRevP == {"set", "mul", "get", "add"}
 OpsRec == {"get", "set", "mul", "add", "const"}
 OpsDrvO == {"get", "set", "mul", "drv", "other"}
+OpsDrvZ == {"rev", "sub", "mul", "drv"}          \* with XZero: intermediates that vanish at the evaluation point (first-order adjoint exactly 0)
+XZero == { V2(2, 2) }
 OpsDrvX == {"get", "mul", "drv"}                 \* driver histories over several evaluation points (DrvX <- XCat)
 OpsH2 == {"get", "set", "div", "pow"}
 OpsDrvA == {"get", "set", "mul", "div", "sum", "drv"}
